@@ -64,6 +64,12 @@ func (t *Track) RecordFrom(inPort drivers.In, ticks MetricTicks, bpm float64) (s
 	t.Add(0, MetaTempo(bpm))
 	var absmillisec int32
 	return midi.ListenTo(inPort, func(msg midi.Message, absms int32) {
+		// only channel messages and complete sysex messages can be stored in a track of a SMF
+		// (realtime and system common messages are not allowed there)
+		var sysex []byte
+		if !msg.Is(midi.ChannelMsg) && !msg.GetSysEx(&sysex) {
+			return
+		}
 		deltams := absms - absmillisec
 		absmillisec = absms
 		delta := ticks.Ticks(bpm, time.Duration(deltams)*time.Millisecond)
